@@ -31,7 +31,7 @@ def _init() -> None:
             "offset": {"P": OffsetPattern, "value": lambda r: Offset.from_seconds(r.choice([0, 64800, -64800, r.randint(-64800, 64800), r.randint(-18, 18) * 3600, r.randint(-1080, 1080) * 60])), "alpha": "+-HhmsfgGlZ:'\\\"% .", "seeds": ["g", "G", "f", "m", "s", "l", "+HH:mm", "-HH:mm:ss", "Z+HH:mm", "+HH", "+HHmm", "+H:m:s"], "exact": ["g", "G", "l", "+HH:mm:ss", "-HH:mm:ss", "Z+HH:mm:ss"], "key": lambda v: v.seconds},
             "time": {"P": LocalTimePattern, "value": rtime, "alpha": "HhmsfFtT:.;'\\\"%r ", "seeds": ["t", "T", "r", "HH:mm:ss", "HH:mm:ss.FFFFFFFFF", "hh:mm:ss.fffffffff tt", "H:m:s", "HH:mm:ss;FFFFFFF", "hh:mm t", "HHmmss"], "exact": ["r", "HH:mm:ss.FFFFFFFFF", "HH:mm:ss.fffffffff", "hh:mm:ss.fffffffff tt", "H:m:s;FFFFFFFFF"], "key": lambda v: v.nanosecond_of_day},
             "date": {"P": LocalDatePattern, "value": rdate, "alpha": "yuMdcg/'\\\"%- .", "seeds": ["d", "D", "uuuu-MM-dd", "yyyy-MM-dd g", "dd/MM/uuuu", "MMMM dd uuuu", "ddd dd MMM uuuu", "uuuuMMdd", "d/M/uuuu", "uuuu-MM-dd c", "yy-MM-dd"], "exact": ["uuuu-MM-dd", "yyyy-MM-dd g", "dd/MM/uuuu", "MMMM dd uuuu", "ddd dd MMM uuuu", "uuuuMMdd", "d/M/uuuu", "dddd d MMMM uuuu", "uuuu-MM-dd c"], "key": lambda v: (v.year, v.month, v.day, v.calendar.id)},
-            "datetime": {"P": LocalDateTimePattern, "value": lambda r: rdate(r) + rtime(r), "alpha": "yuMdHhmsfFtTcg/:.;'\\\"% -", "seeds": ["o", "O", "r", "R", "s", "S", "F", "f", "G", "g", "uuuu-MM-dd'T'HH:mm:ss", "dd/MM/uuuu HH:mm", "uuuu-MM-dd'T'HH:mm:ss.FFFFFFFFF"], "exact": ["r", "R", "uuuu-MM-dd'T'HH:mm:ss.FFFFFFFFF", "dd/MM/uuuu hh:mm:ss.fffffffff tt"], "key": lambda v: (v.year, v.month, v.day, v.nanosecond_of_day)},
+            "datetime": {"P": LocalDateTimePattern, "value": lambda r: rdate(r) + rtime(r), "alpha": "yuMdHhmsfFtTcg/:.;'\\\"% -<>l", "seeds": ["o", "O", "r", "R", "s", "S", "F", "f", "G", "g", "uuuu-MM-dd'T'HH:mm:ss", "dd/MM/uuuu HH:mm", "uuuu-MM-dd'T'HH:mm:ss.FFFFFFFFF", "ld<uuuu-MM-dd>'T'lt<HH:mm:ss>", "l<uuuu-MM-dd HH:mm>", "l<s>", "'at' l<HH:mm dd/MM/uuuu>", "ld<d> lt<t>", "l<", "l<>", "lx<HH>", "ld<uuuu>lt<HH>"], "exact": ["r", "R", "uuuu-MM-dd'T'HH:mm:ss.FFFFFFFFF", "dd/MM/uuuu hh:mm:ss.fffffffff tt"], "key": lambda v: (v.year, v.month, v.day, v.nanosecond_of_day)},
             "duration": {"P": DurationPattern, "value": lambda r: Duration.from_nanoseconds(r.choice([0, 1, -1, r.randint(-(10**18), 10**18), r.randint(-(10**13), 10**13), r.randint(-86400, 86400) * 10**9])), "alpha": "DHhMmSsfF+-:.'\\\"% ", "seeds": ["o", "j", "-D:hh:mm:ss.FFFFFFFFF", "HH:mm", "M:ss", "S.fff", "-H:mm:ss", "+D 'd' hh:mm"], "exact": ["o", "j", "-D:hh:mm:ss.FFFFFFFFF", "-H:mm:ss.fffffffff", "-S.FFFFFFFFF", "-M:ss.fffffffff"], "key": lambda v: v.to_nanoseconds()},
             "instant": {"P": InstantPattern, "value": lambda r: Instant.from_unix_time_ticks(r.choice([0, r.randint(-62135596800 * 10**7, 253402300799 * 10**7), r.randint(-10**17, 10**17)])), "alpha": "yuMdHhmsfFtTcg/:.;'\\\"% -Z", "seeds": ["g", "uuuu-MM-dd'T'HH:mm:ss'Z'", "uuuu-MM-dd'T'HH:mm:ss;FFFFFFFFF'Z'", "dd/MM/uuuu HH:mm:ss"], "exact": ["uuuu-MM-dd'T'HH:mm:ss;FFFFFFFFF'Z'", "uuuu-MM-dd'T'HH:mm:ss.fffffffff"], "key": lambda v: v.to_unix_time_ticks()},
             "annual": {"P": AnnualDatePattern, "value": lambda r: AnnualDate(r.randint(1, 12), r.randint(1, 28)) if r.random() < 0.9 else AnnualDate(2, 29), "alpha": "Md/'\\\"%- ", "seeds": ["G", "MM-dd", "dd/MM", "MMMM dd", "MMM d", "d/M"], "exact": ["G", "MM-dd", "dd/MM", "MMMM dd", "MMM d", "d/M"], "key": lambda v: (v.month, v.day)},
@@ -153,6 +153,24 @@ def run_c07(tier: str, seed: int) -> dict:
                     if name == "date" and "9999" in str(e):
                         continue
                     bad.setdefault((name, "exception " + type(e).__name__), f"pattern {pt!r} value {v!r}: {e}")
+    # two-digit years: every year of the 100-year window the pattern can represent (template year 2000)
+    from pyoda_time import LocalDate, LocalDateTime
+    from pyoda_time.text import LocalDatePattern, LocalDateTimePattern
+
+    for mx in (0, 1, 30, 50, 98, 99):
+        pd = LocalDatePattern.create_with_invariant_culture("yy-MM-dd").with_two_digit_year_max(mx)
+        pdt = LocalDateTimePattern.create_with_invariant_culture("yy-MM-dd HH:mm").with_two_digit_year_max(mx)
+        for year in range(2000 + mx - 99, 2000 + mx + 1):
+            n += 2
+            n_exact += 2
+            d = LocalDate(year, 6, 15)
+            res = pd.parse(pd.format(d))
+            if not res.success or res.value != d:
+                bad.setdefault(("date", "two-digit-year"), f"pattern 'yy-MM-dd' two_digit_year_max={mx}: {d!r} -> {pd.format(d)!r} -> {res.value if res.success else 'failure'!r}")
+            x = LocalDateTime(year, 6, 15, 10, 30)
+            res = pdt.parse(pdt.format(x))
+            if not res.success or res.value != x:
+                bad.setdefault(("datetime", "two-digit-year"), f"pattern 'yy-MM-dd HH:mm' two_digit_year_max={mx}: {x!r} -> {pdt.format(x)!r}")
     violations = [{"name": f"C07.{k[0]} {k[1]}", "kind": "standin", "site": k[1], "detail": v, "contract": "standin", "inputs": {"case": v}, "replay": {"confirmed": True}} for k, v in sorted(bad.items())[:10]]
     return {"bounded": [{"name": "format/parse round trips over generated patterns and values (invariant culture)", "bound": f"{n} (pattern, value) pairs; {n_exact} with patterns whose fields represent the value exactly", "evaluations": n, "distinct_nontrivial": n_exact, "rule": "non-trivial = the pattern represents the value exactly, so equality after the round trip is required", "exhaustive": False}], "violations": violations}
 
@@ -209,6 +227,22 @@ def run_c17(tier: str, seed: int) -> dict:
             chk("instant.general", text2.endswith("Z") and len(text2) == 20 and dt.datetime.fromisoformat(text2) == xi.replace(microsecond=0), f"{xi!r}: general pattern wrote {text2!r}")
             back = InstantPattern.extended_iso.parse(xi.isoformat().replace("+00:00", "Z"))
             chk("instant.parse", back.success and back.value == ins, f"stdlib text {xi.isoformat()!r} (Z form) did not parse to {ins!r}")
+        # full nanosecond precision (beyond the stdlib's reach): round trip and fraction width through the patterns themselves
+        ns = r.choice([1, 999_999_999, r.randrange(10**9)])
+        lt9 = LocalTime.from_nanoseconds_since_midnight(r.randrange(86400) * 10**9 + ns)
+        for pat, nine in ((LocalTimePattern.extended_iso, False), (LocalTimePattern.long_extended_iso, True)):
+            text = pat.format(lt9)
+            fr = text.split(".")[1] if "." in text else ""
+            chk("time.ns", pat.parse(text).value == lt9 and (len(fr) == 9 if nine else (fr == str(ns).rjust(9, "0").rstrip("0"))), f"{lt9!r}: pattern wrote {text!r}")
+        ins9 = Instant.from_unix_time_ticks(r.randint(-62135596800, 253402300799) * 10**7).plus_nanoseconds(ns)
+        text = InstantPattern.extended_iso.format(ins9)
+        fr = text[:-1].split(".")[1] if "." in text else ""
+        chk("instant.ns", InstantPattern.extended_iso.parse(text).value == ins9 and fr == str(ns).rjust(9, "0").rstrip("0"), f"{ins9!r}: pattern wrote {text!r}")
+        ldt9 = LocalDateTime(d.year, d.month, d.day, 0, 0).plus_nanoseconds(r.randrange(86400) * 10**9 + ns) if d < dt.date.max else None
+        if ldt9 is not None:
+            for pat in (LocalDateTimePattern.extended_iso, LocalDateTimePattern.full_roundtrip_without_calendar):
+                text = pat.format(ldt9)
+                chk("datetime.ns", pat.parse(text).value == ldt9, f"{ldt9!r}: pattern wrote {text!r}")
         # offsets of whole minutes
         om = r.choice([0, 1080, -1080, r.randint(-1080, 1080)])
         off = Offset.from_seconds(om * 60)
